@@ -28,7 +28,7 @@ func init() { checks["C02"] = checkC02 }
 func c02Core() gen.Features {
 	return gen.Features{Floats: true, Strings: true, Arrays: true, Objects: true, While: true, For: true, Switch: true,
 		BreakContinue: true, StatusReturn: true, Guards: true, BuiltinsCore: true, Match: true, DivZero: true, IndexOOR: true, Mod: true,
-		NestedReturn: true, DeclInBranch: true, IllTyped: 3}
+		NestedReturn: true, DeclInBranch: true, IllTyped: 3, NoMatchBindShadow: true}
 }
 
 type c02Flag struct {
@@ -45,6 +45,7 @@ var c02Quarantine = []c02Flag{
 	{"call.userfn", func(f *gen.Features) { f.UserFuncs = true }},
 	{"call.builtin_not_in_vm", func(f *gen.Features) { f.BuiltinsInterp = true }},
 	{"scope.loopvar_shadows_outer", func(f *gen.Features) { f.LoopVarShadow = true }},
+	{"scope.matchbind_shadows_outer", func(f *gen.Features) { f.NoMatchBindShadow = false }},
 }
 
 type c02Case struct {
@@ -189,6 +190,7 @@ func c02Probes() []c02Probe {
 		{"call.userfn", "! twice(n: int!): int {\n  > n * 2\n}\n\n@ GET /p {\n  > {x: twice(4)}\n}\n", get("/p")},
 		{"call.builtin_not_in_vm", "@ GET /p {\n  > {x: abs(0 - 4), y: startsWith(\"abc\", \"a\")}\n}\n", get("/p")},
 		{"scope.loopvar_shadows_outer", "@ GET /p {\n  $ i = 5\n  for i in [1, 2] {\n    $ t = i\n  }\n  > {x: i}\n}\n", get("/p")},
+		{"scope.matchbind_shadows_outer", "@ GET /p {\n  $ v = 1\n  $ w = match 9 {\n    3 => 0\n    v when v > 7 => v\n    _ => 0\n  }\n  > {x: v, w: w}\n}\n", get("/p")},
 		{"field.absent", "@ GET /p {\n  $ o = {a: 1}\n  > {x: o.missing}\n}\n", get("/p")},
 		{"input.defaults", ": T {\n  f0: str!\n  f1: int = 7\n}\n@ POST /p {\n  < input: T\n  > {echo: input}\n}\n", []HReq{{M: "POST", P: "/p", B: sp(`{"f0":"a"}`)}}},
 		{"index.absent_key", "@ GET /p {\n  > {x: headers[\"X-Not-Sent\"]}\n}\n", get("/p")},
